@@ -212,6 +212,7 @@ theorem appendGroup_rel (ok : P.Ok) {s₁ s₂ : St} (h : Sim P X s₁ s₂) {g 
             rcases hx with hx | hx
             · exact (h.1.wf b _ hg).2 x (by simpa [grefs] using hx)
             · rw [hx]; exact hlt)
+          (by intro _ nodes0 t0 e0; cases e0)
         rw [key (.block children) cs2 hcs2] at a1
         have hmr : ∀ t₁ : St, t₁.stack = s₁.stack → t₁.groups = s₁.groups.setIfInBounds b (.block (children ++ [g])) →
             ¬ P.T g → MR P t₁ ∧ (CL P s₁ → CL P t₁) := by
